@@ -121,7 +121,7 @@ def write_bam(path, reads):
     return path
 
 
-def iterate(kind, reads, *, hd, radius, cap, pooling, sched, cache, tags, bam=None):
+def iterate(kind, reads, *, hd, radius, cap, pooling, sched, cache, tags, bam=None, reuse=False):
     """One run of the real MoleculeIterator. Returns (molecules, raised): molecules = list of
     {at, ov, recs:[{id, dup, rc, af, tf}]} (tags=True, after write_tags) or {at, ids} (tags=False).
     bam: path of a BAM file to read instead of the iterable (pysam.AlignmentFile -> MatePairIterator inside the
@@ -130,10 +130,15 @@ def iterate(kind, reads, *, hd, radius, cap, pooling, sched, cache, tags, bam=No
     mcls, fcls = classes()[kind]
     consumed = [0]
 
+    class Source:                      # re-iterable input that counts what the iterator has consumed in the current pass
+        def __iter__(self):
+            consumed[0] = 0
+            for pair in reads:
+                consumed[0] += 1
+                yield pair
+
     def source():
-        for pair in reads:
-            consumed[0] += 1
-            yield pair
+        return Source()
 
     margs = {'cache_size': cache}
     if cap:
@@ -144,6 +149,9 @@ def iterate(kind, reads, *, hd, radius, cap, pooling, sched, cache, tags, bam=No
                           check_eject_every=sched, molecule_class_args=margs, fragment_class_args=fargs)
     out, raised = [], ''
     try:
+        if reuse:                      # history: a first pass over the same iterator object is abandoned after one molecule
+            for m in it:
+                break
         for m in it:
             at = consumed[0] if not bam else len(reads)
             if tags:
@@ -212,7 +220,15 @@ def gen_library(rng, tier):
                         umis.append(near_umi(rng, umis[0], 2))
                     elif r < 0.75:
                         u = list(umis[0])
-                        u[rng.randrange(ulen)] = 4                      # N
+                        npos = rng.randrange(ulen)
+                        u[npos] = 4                      # N
+                        if hd and ulen - 1 >= hd and rng.random() < 0.5:
+                            # ... and the only other UMI differs from it on exactly hd known positions
+                            v = list(umis[0])
+                            for q in rng.sample([x for x in range(ulen) if x != npos], hd):
+                                v[q] = rng.choice([x for x in range(4) if x != v[q]])
+                            umis = [u, v] if rng.random() < 0.5 else [v, u]
+                            break
                         umis.append(u)
                     elif r < 0.85 and ulen > 2:
                         umis.append(list(umis[0][:-1]))                  # a UMI of another length
@@ -255,8 +271,9 @@ def run_library(cfg, frs, rng, tid, retag=True, via_bam=False):
         pair, s, e = build(kind, 0, d, rng)
         built.append((d, pair, s, e))
     # coordinate-sorted input as the mate-pair iterator releases it; ties in random (seeded) order
-    order = sorted(range(len(built)), key=lambda i: (built[i][0]['contig'], release_key(built[i][2], built[i][3], cfg['readlen']), rng.random()))
-    built = [built[i] for i in order]
+    if not cfg.get('keep_order'):
+        order = sorted(range(len(built)), key=lambda i: (built[i][0]['contig'], release_key(built[i][2], built[i][3], cfg['readlen']), rng.random()))
+        built = [built[i] for i in order]
     if cfg.get('dup_mode') == 'first':          # the fragment that will be rank 0 carries the flag, later ones do not
         seen = set()
         for d, pair, s, e in built:
@@ -319,6 +336,15 @@ def directed_libraries():
                     for strand in (0, 1):       # exactly radius apart (may join) / radius + 1 apart (must stay apart)
                         out.append((dict(base, hd=0, radius=rad), [f(1, 1, strand, 100, u), f(1, 1, strand, 100 + rad, u)]))
                         out.append((dict(base, hd=0, radius=rad), [f(1, 1, strand, 100, u), f(1, 1, strand, 100 + rad + 1, u), f(1, 1, strand, 100 + rad + 1, u, flen=9)]))
+            # a UMI with N and a UMI that differs on exactly hd of the KNOWN positions (real base at the N position):
+            # within the distance whichever of the two arrives first / is the molecule's representative
+            N = 4
+            for hd, nu, ou in ((1, [0, N, 0], [1, 2, 0]), (1, [N, 0, 0], [2, 0, 3]), (2, [0, N, 0, 0], [1, 2, 3, 0]), (2, [N, N, 0, 0], [1, 1, 2, 3])):
+                for first, second in ((nu, ou), (ou, nu)):
+                    out.append((dict(base, hd=hd, keep_order=True), [f(1, 1, 0, 100, first), f(1, 1, 0, 100, second, flen=9)]))
+                    out.append((dict(base, hd=hd, keep_order=True),
+                                [f(1, 1, 0, 100, first), f(1, 1, 0, 100, first, flen=9), f(1, 1, 0, 100, second, flen=10), f(1, 1, 1, 100, second),
+                                 f(1, 1, 1, 100, first, flen=9)]))
             # UMIs exactly hd + 1 apart must stay apart
             for hd, far in ((0, v1), (1, v2), (2, [1, 1, 1])):
                 out.append((dict(base, hd=hd), [f(1, 1, 0, 100, u), f(1, 1, 0, 100, far), f(1, 1, 0, 100, u, flen=9), f(1, 1, 0, 100, far, flen=9)]))
@@ -380,6 +406,12 @@ def run_schedules(kind, cfg, frs, rng, tid, scheds=None, poolings=(0, 1), model=
             runs.append({'sched': -1 if sched is None else sched, 'pooling': pooling, 'raised': raised, 'emits': emits})
     if bam:
         os.remove(bam)
+    if cfg.get('reuse'):
+        for pooling in poolings:
+            for sched in [x for x in scheds if x is not None and x <= 2]:
+                emits, raised = iterate(kind, reads, hd=cfg['hd'], radius=cfg['radius'], cap=0, pooling=pooling, sched=sched,
+                                        cache=cfg['cache'], tags=False, reuse=True)
+                runs.append({'sched': sched, 'pooling': pooling, 'raised': raised, 'emits': emits, 'reuse': 1})
     return {'ev': 'sched', 'tid': tid, 'kind': kind, 'hd': cfg['hd'], 'radius': cfg['radius'], 'cap': 0, 'cache': cfg['cache'],
             'readlen': cfg['readlen'], 'frags': frags, 'runs': runs, 'model': model or []}
 
@@ -439,6 +471,34 @@ def directed_sequences():
                 out.append((kind, cfg, [f(0, 100, h), f(0, 100, 5, umi=(1, 1)), f(0, 100, h, contig=2), f(0, 100, 6, contig=2)]))
                 # reverse-strand duplicates (same end, different starts) separated by an unrelated long fragment
                 out.append((kind, cfg, [f(1, 130, h), f(0, 131 - h + 1, h, umi=(3, 3)), f(1, 130, 5)]))
+    # one bucket (plain; CHiC with radius) holding ejectable / still open / ejectable molecules in that order when the check
+    # fires, then a later fragment that joins the open one (reverse strand: same end, later start)
+    for kind, radius in (('plain', 0), ('plain', 2), ('chic', 2), ('chic', 4), ('nla', 0)):
+        for cache in (40, 48):
+            h = cache // 2 - radius
+            cfg = {'hd': 0, 'radius': radius, 'cache': cache, 'readlen': SINGLE, 'keep_order': True}
+
+            def rv(start, end, umi, cell=1):       # reverse single-end fragment [start, end)
+                site = end if kind == 'plain' else (end if kind == 'chic' else end - 4)
+                return f(1, site, end - start, umi=umi, cell=cell)
+            out.append((kind, cfg, [rv(100, 105, (1, 1)), rv(100, 100 + h, (0, 1)), rv(101, 106, (2, 2)),
+                                    rv(107 + radius, 107 + radius + h, (3, 3)), rv(108 + radius, 100 + h, (0, 1))]))
+            # three ejectable ones around two open ones
+            out.append((kind, cfg, [rv(100, 105, (1, 1)), rv(100, 100 + h, (0, 1)), rv(101, 106, (2, 2)), rv(101, 100 + h - 1, (0, 2)),
+                                    rv(102, 107, (2, 3)), rv(108 + radius, 108 + radius + h, (3, 3)),
+                                    rv(109 + radius, 100 + h, (0, 1)), rv(109 + radius, 100 + h - 1, (0, 2))]))
+    # a molecule whose second fragment reaches further right than its first, an unrelated fragment ending between
+    # first-end + cache/2 and true-end + cache/2, then a fragment that joins at the true right border
+    for cache in (40, 48):
+        h = cache // 2
+        cfg = {'hd': 0, 'radius': 0, 'cache': cache, 'readlen': SINGLE, 'keep_order': True}
+        # plain: joins by its END (start-or-end matching)
+        out.append(('plain', cfg, [f(0, 100, 5), f(0, 100, h), f(0, 107, h, umi=(3, 3)), f(0, 108, h - 8)]))
+        out.append(('plain', cfg, [f(0, 100, 5), f(0, 100, 9), f(0, 100, h), f(0, 112, h, umi=(3, 3)), f(0, 113, h - 13), f(0, 114, h - 14)]))
+        # CHiC radius 4, reverse strand: sites 110 and 114 form the molecule (right border 114), joiner at site 118
+        cfg4 = dict(cfg, radius=4)
+        h4 = h - 4
+        out.append(('chic', cfg4, [f(1, 110, 10), f(1, 114, 13), f(1, 115 + h4, h4, umi=(3, 3)), f(1, 118, 2)]))
     return out
 
 
@@ -461,7 +521,7 @@ def mode_c07(emit, tier, rng, scenario_file):
     tid = 0
     for kind, cfg, frs in directed_sequences():
         tid += 1
-        emit(run_schedules(kind, cfg, frs, rng, tid))
+        emit(run_schedules(kind, dict(cfg, reuse=True), frs, rng, tid))
     if scenario_file and os.path.exists(scenario_file):
         with open(scenario_file) as fh:
             scns = json.load(fh)
@@ -473,10 +533,10 @@ def mode_c07(emit, tier, rng, scenario_file):
             emit(run_schedules(kind, cfg, frs, rng, tid, scheds=[sched] + ([None] if sched is not None else []),
                                poolings=(pooling, 1 - pooling), model=model))
     n = 400 if tier == 'quick' else 4000
-    for _ in range(n):
+    for k in range(n):
         kind, cfg, frs = gen_sequence(rng, tier)
         tid += 1
-        emit(run_schedules(kind, cfg, frs, rng, tid))
+        emit(run_schedules(kind, dict(cfg, reuse=(k % 4 == 0)), frs, rng, tid))
     # the same through a coordinate-sorted BAM file and the MatePairIterator inside the MoleculeIterator
     for _ in range(20 if tier == 'quick' else 300):
         kind, cfg, frs = gen_sequence(rng, tier)
